@@ -21,6 +21,7 @@ CaseOK(c) ==
     [] c.kind = "range" -> c.claim = HR!Addressed(c.blocks, c.o, c.l)
     [] c.kind = "apiop" -> AL!OpOK([c EXCEPT !.allowed = {c.allowed[i] : i \in DOMAIN c.allowed}])
     [] c.kind = "apirun" -> AL!RunOK(c)
+    [] c.kind = "compile" -> AL!CompileOK(c)
     [] OTHER -> FALSE
 
 \* disagreements that carry the signature of a recorded known finding (decided from the case, spec side)
